@@ -9,7 +9,7 @@ NOT_IMPL = "static check for the structural clause(s) named in DESIGN.md not imp
 PROPS = {
     "C26": dict(
         claimed=True, design="§2 C26",
-        technique="AST enumeration of all coded-exception constructor calls + constant folding of the code argument + catalogue/placeholder table comparison",
+        technique="AST enumeration of all coded-exception constructor calls + constant folding of the code argument + catalogue/placeholder table comparison; **name splats resolved to their local dict literal, duplicate-keyword detection",
         text="Decides the property's static quantifier in full: every constructor call of SemanticError / RunTimeError / "
              "DataLoadError / InputValidationException (and subclasses) in src/vtlengine is enumerated, its code is folded to a "
              "finite set and looked up in the catalogue literal, and the message's placeholders are compared with the keywords "
@@ -21,7 +21,7 @@ PROPS = {
 
     "C11": dict(
         claimed=True, design="§2 C11",
-        technique="finite decision tables of the four promotion functions evaluated over all 9x9x(type_to_check)x(return_type) cells + docs list-table comparison + CFG must-pass-through of type checks + purity rule",
+        technique="finite decision tables of the four promotion functions evaluated over all 9x9x(type_to_check)x(return_type) cells + docs list-table comparison + CFG must-pass-through of type checks + purity rule; memoisation inventory over the operator type rules (result must depend only on the arguments)",
         text="Decides over the whole finite type domain: the implicit-promotion table equals the documented table; check_* agrees with "
              "the promotion that computes the result for every cell and every (type_to_check, return_type) pair declared by an operator "
              "class; commutative operators get order-independent result types; accepted iff a documented common type admitted by the "
@@ -32,7 +32,7 @@ PROPS = {
              "explicit reasoned exemption table."),
     "C09": dict(
         claimed=True, design="§3 C09",
-        technique="decision table of Cast.check_without_mask vs docs list-tables; symbolic evaluation of the rename branch and of the SQL cast dispatch over all type pairs; CFG must-pass-through; integer-typing lint of `/` in the conversion macros; concrete evaluation of the Time->Time_Period macro text over a calendar grid against the calendar definition of VTL periods",
+        technique="decision table of Cast.check_without_mask vs docs list-tables; symbolic evaluation of the rename branch and of the SQL cast dispatch over all type pairs; CFG must-pass-through; integer-typing lint of `/` in the conversion macros; concrete evaluation of the Time->Time_Period macro text over a calendar grid against the calendar definition of VTL periods; TRUNC-before-integer-cast rule on the evaluated cast dispatch",
         text="Decides the accept/reject table of cast (code vs the two documented tables, 8x8), that every validation path performs the "
              "check, the documented measure-renaming rule, and that representation-changing conversions are routed to existing SQL "
              "macros rather than a generic CAST. Does not decide per-value conversion results (DuckDB semantics).",
@@ -108,7 +108,7 @@ PROPS = {
 
     "C15": dict(
         claimed=True, design="§3 C15",
-        technique="lint over every SQL skeleton (f-string/constant with typed holes) and .sql macro body: tokeniser + window/aggregate/LIMIT/DISTINCT ON/nondeterministic-function rules; who-may-call rule for partial fetch APIs; guard-emission pairing in the OVER-clause builder",
+        technique="lint over every SQL skeleton (f-string/constant with typed holes) and .sql macro body: tokeniser + window/aggregate/LIMIT/DISTINCT ON/nondeterministic-function rules; who-may-call rule for partial fetch APIs; guard-emission pairing in the OVER-clause builder; (window lint: holes inside a PARTITION BY list do not stand for an ORDER BY)",
         text="Decides the necessary structural condition for determinism under any thread count / storage mode: since the engine is "
              "configured with preserve_insertion_order=false (premise read from the source), no emitted SQL may contain a construct "
              "whose value depends on row order without a total ORDER BY, and results must be fetched completely. Every SQL text the "
@@ -136,7 +136,7 @@ PROPS = {
 
     "C32": dict(
         claimed=True, design="§3 C32",
-        technique="writer/reader agreement between SQL error('…') texts and the ordered substring decision list of the error mappers; enclosing-handler analysis of data-evaluating execute sites reachable from execute_queries; bare-raise and visitor-coverage inventory on the execution path; non-message guards of mapper branches evaluated (E6) per execution site (statement text vs the empty text of the fetch site); macro-availability rule: macros called by load/fetch SQL vs the conditions under which execute_queries adds them to the installed closure",
+        technique="writer/reader agreement between SQL error('…') texts and the ordered substring decision list of the error mappers; enclosing-handler analysis of data-evaluating execute sites reachable from execute_queries; bare-raise and visitor-coverage inventory on the execution path; non-message guards of mapper branches evaluated (E6) per execution site (statement text vs the empty text of the fetch site); macro-availability rule: macros called by load/fetch SQL vs the conditions under which execute_queries adds them to the installed closure; dataset-form vs classifier/structure-dispatcher contradiction rule over the node-class matrix; the repository's own macro-library parser evaluated (E6) on the real .sql files against a comment/string-aware reading; C26's constructibility rule on the error mappers",
         text="Decides the structural conditions under which an execution failure can surface as a VTL error: every error text the "
              "engine's own SQL can raise is claimed by the intended branch of the mapper serving its execution site, every branch "
              "returns a coded VTL exception, statements that evaluate data are executed under a duckdb.Error handler that maps, no "
@@ -147,7 +147,7 @@ PROPS = {
 
     "C01": dict(
         claimed=True, design="§3 C01",
-        technique="operator-registry extraction (loops unrolled, generators lowered) + SQL expression parser + nullness abstract interpretation through macro bodies + exact three-valued evaluation vs Kleene tables + semantic-token vs SQL-generation-path comparison",
+        technique="operator-registry extraction (loops unrolled, generators lowered) + SQL expression parser + nullness abstract interpretation through macro bodies + exact three-valued evaluation vs Kleene tables + semantic-token vs SQL-generation-path comparison; abstract interpretation (E6) of the dataset-scalar operator builder for division in both operand orders",
         text="Decides four structural clauses of the element-wise operator property for every operator at once: each token accepted by "
              "semantic analysis has an SQL generation path; every element-wise SQL template (and every macro it calls) yields NULL when an "
              "operand is NULL; and/or/xor/not have the VTL three-valued truth tables; division by zero travels from the DIV template "
@@ -158,7 +158,7 @@ PROPS = {
 
     "C08": dict(
         claimed=True, design="§3 C08",
-        technique="macro-table extraction from the .sql libraries + integer evaluation of the parsed period-limit and period-shift expressions with DuckDB's // and % semantics over all (period, shift in -60..60) cells vs calendar arithmetic + sibling limit-table comparison + macro call-site/signature agreement",
+        technique="macro-table extraction from the .sql libraries + integer evaluation of the parsed period-limit and period-shift expressions with DuckDB's // and % semantics over all (period, shift in -60..60) cells vs calendar arithmetic + sibling limit-table comparison + macro call-site/signature agreement; Date timeshift expression obtained by E6 and evaluated by the concrete SQL evaluator over a calendar grid (round trip, injectivity); time_agg macro text vs the calendar oracle (sa/calx.py)",
         text="Decides the arithmetic clauses of the calendar property that live in this repository: period limits must be year-aware for "
              "weeks and days, Python and SQL must agree on them, the carry/modulo arithmetic of period shifting must equal calendar "
              "arithmetic for every period number and every shift in -60..60 (so shifting by n then -n is the identity and distinct "
@@ -169,7 +169,7 @@ PROPS = {
 
     "C19": dict(
         claimed=True, design="§3 C19",
-        technique="decision table of the CREATE TABLE builder; CFG ordering/must-pass rules in post-load validation; regular-language inclusion (regex -> NFA -> product search with shortest witnesses) between load regexes and the language of real periods; docs tables vs loader accept-language through the parsed normalisation macro",
+        technique="decision table of the CREATE TABLE builder; CFG ordering/must-pass rules in post-load validation; regular-language inclusion (regex -> NFA -> product search with shortest witnesses) between load regexes and the language of real periods; docs tables vs loader accept-language through the parsed normalisation macro; CFG must-pass-through of the duplicate / temporal checks excluding only the documented skip branch; E6 composition of CSV read type and SELECT builder for Integer columns",
         text="Decides the structural half of input rejection: NOT NULL constraints are emitted exactly for identifiers and non-nullable "
              "components; Time_Period values are normalised before duplicate/single-row/format checks, which lie on every path of every "
              "loader; the load regex admits only real periods (language inclusion with witnesses) and interval order is checked; every "
@@ -188,7 +188,7 @@ PROPS = {
 
     "C20": dict(
         claimed=True, design="§3 C20",
-        technique="set comparison of coded rejections reachable (call graph) from the pandas validator vs the DuckDB loaders; regular-language symmetric difference (product automata with witnesses) of the two sides' temporal patterns; CFG ordering of the duplicate check",
+        technique="set comparison of coded rejections reachable (call graph) from the pandas validator vs the DuckDB loaders; regular-language symmetric difference (product automata with witnesses) of the two sides' temporal patterns; CFG ordering of the duplicate check; CFG must-pass-through of run()'s post-load checks (shared with C19)",
         text="Decides agreement of the two sibling validators at the level where it is a property of the code's shape: both perform the "
              "same rejecting checks, both check duplicates on cast/normalised values, and the regular languages they accept for Date, "
              "Time and Time_Period are compared exactly, with a witness string for every difference. Automata quantify over all strings.",
@@ -196,7 +196,7 @@ PROPS = {
              "Four known findings (extra columns; Date, Time and Time_Period language differences)."),
     "C18": dict(
         claimed=True, design="§3 C18",
-        technique="CFG must-pass-through on the three loaders; per-type SQL of the CSV and DataFrame/Parquet SELECT builders obtained by lowering both builders over type x nullable x source type, compared for rejecting guards and for the Number conversion chain; header-order binding via C33",
+        technique="CFG must-pass-through on the three loaders; per-type SQL of the CSV and DataFrame/Parquet SELECT builders obtained by lowering both builders over type x nullable x source type, compared for rejecting guards and for the Number conversion chain; header-order binding via C33; per-type comparison of the value-changing functions applied by the CSV and DataFrame/Parquet SELECT builders (E6)",
         text="Decides the structural conditions for the three input forms to behave alike: one schema builder and one post-load "
              "validation on every loader's success path, failures mapped and the table dropped, identical rejecting guards per "
              "component type in the two SELECT builders, Number always converted from text, CSV columns bound by header order.",
@@ -205,7 +205,7 @@ PROPS = {
 
     "C17": dict(
         claimed=True, design="§3 C17",
-        technique="lock-coverage analysis of every access to the compiled parser's global buffer (lexical with-regions + caller-side coverage via the call graph); inventory of process-global state (module globals, class attributes, module-level containers) with writers/readers intersected with API reachability and classified; def-use of the session directory name",
+        technique="lock-coverage analysis of every access to the compiled parser's global buffer (lexical with-regions + caller-side coverage via the call graph); inventory of process-global state (module globals, class attributes, module-level containers) with writers/readers intersected with API reachability and classified; def-use of the session directory name; conditional classification re-checked against dynamically dispatched visitor methods",
         text="Decides the structural conditions of thread safety that are visible in the code: the parser's single global buffer is only "
              "touched under the re-entrant parser_lock; every piece of process-global state on an API path is either protected, "
              "environment-derived, or reported; per-call resources have per-call unique names. A data race needs one specific "
@@ -214,7 +214,7 @@ PROPS = {
              "class attributes used as scratch variables), three demonstrated with forced interleavings (triage/race_demo.py)."),
     "C10": dict(
         claimed=True, design="§3 C10",
-        technique="def-use provenance of structure objects from interpreter.visit() to the returned Dataset/Scalar; AST shape rule on the fetch projection; who-may-write rule over structure fields (execution pipeline) and reviewed-writer table for role/nullable",
+        technique="def-use provenance of structure objects from interpreter.visit() to the returned Dataset/Scalar; AST shape rule on the fetch projection; who-may-write rule over structure fields (execution pipeline) and reviewed-writer table for role/nullable; structure model (E6) of membership (validator vs structure builder vs SELECT list); row-multiplicity rule for exists_in (JOIN keys vs identifiers of the probed operand)",
         text="Decides the structural clause of the property: run() returns the very structure objects its semantic pass (configured like "
              "semantic_analysis()) produced; the fetch query projects the declared components in declared order (no physical-order "
              "SELECT * when components are declared); nothing in the execution pipeline rewrites type/role/nullability/components of "
@@ -246,7 +246,7 @@ PROPS = {
              "3.0 written as 3."),
     "C23": dict(
         claimed=True, design="§3 C23",
-        technique="lexical/brace-matched analysis of bindings.cpp (ParserState members vs resets before parser->start(), listener installation); statement-CFG must-pass-through / must-precede rules on the function that calls parse(); call-graph parse-path set checked for memoisation decorators and for process-global containers without per-parse reset (globals inventory); acquire/release pairing of the parser lock on normal and exceptional exits (incl. generator context managers); raise-site inventory with grammar-exhaustiveness of ctx_id dispatch chains (ANTLR .g4 reader); inventory of import-time instances of mutable in-repo classes used on the parse path",
+        technique="lexical/brace-matched analysis of bindings.cpp (ParserState members vs resets before parser->start(), listener installation); statement-CFG must-pass-through / must-precede rules on the function that calls parse(); call-graph parse-path set checked for memoisation decorators and for process-global containers without per-parse reset (globals inventory); acquire/release pairing of the parser lock on normal and exceptional exits (incl. generator context managers); raise-site inventory with grammar-exhaustiveness of ctx_id dispatch chains (ANTLR .g4 reader); inventory of import-time instances of mutable in-repo classes used on the parse path; CFG dominance of the per-parse reset over every call that reaches a user of the container",
         text="Decides the structural clauses of the parser property: every piece of the C++ parser's global state is reset per parse and "
              "errors of lexer and parser are collected; the Python side reads this parse's error after parse() and raises "
              "VTLSyntaxError with the parser's own position before the tree is used, on every path; no function on the parse path "
@@ -258,7 +258,7 @@ PROPS = {
              "optional parts are counted, not decided. Eight known findings (built-in exceptions for grammar-valid constructs)."),
     "C03": dict(
         claimed=True, design="§3 C03",
-        technique="typed field-read inventory of the SQL transpiler for Aggregation; paired-field rule (grouping/grouping_op); CFG must-reach of the translated having condition to the builder's HAVING in both aggregation paths; def-use provenance of the group-identifier lists (operand structure vs statement output structure); who-may-call rule (no WHERE on the aggregating builder); registry templates vs the grammar's aggregate operators (same-name rule); clause-scope coverage of the translated having / aggregate / grouping expressions",
+        technique="typed field-read inventory of the SQL transpiler for Aggregation; paired-field rule (grouping/grouping_op); CFG must-reach of the translated having condition to the builder's HAVING in both aggregation paths; def-use provenance of the group-identifier lists (operand structure vs statement output structure); who-may-call rule (no WHERE on the aggregating builder); registry templates vs the grammar's aggregate operators (same-name rule); clause-scope coverage of the translated having / aggregate / grouping expressions; structure model (E6): Aggregation.validate vs the StructureVisitor's aggregation builder; decision table of the type-aware aggregate override",
         text="Decides the structural clauses of aggregation: no part of the aggregation syntax is ignored by the SQL generation; the "
              "grouping list is interpreted with its by/except/all operator; a having condition cannot be dropped on any path; the "
              "identifiers that define the groups come from the operand and the grouping clause, not from the statement's final "
@@ -276,7 +276,7 @@ PROPS = {
         note="The choice of the left-hand alias of ON clauses for inner/left joins is not decided (seeded change C04_1 is missed)."),
     "C06": dict(
         claimed=True, design="§3 C06",
-        technique="typed field-read inventory for Analytic/Windowing/OrderBy; paired-field rule (partition_by/partition_op, bounds/modes); guard-emission pairing on the CFG of the OVER-clause builder (strict ORDER BY guard); registry templates vs the grammar's analytic operators (same-name rule, sibling shape agreement); evaluation of the window-bound formatter over all bound shapes; abstract interpretation (E6) of visit_Windowing over every frame shape (offsets 0-3, unbounded, current; data points / range; date ordering) against the offset semantics of the frame",
+        technique="typed field-read inventory for Analytic/Windowing/OrderBy; paired-field rule (partition_by/partition_op, bounds/modes); guard-emission pairing on the CFG of the OVER-clause builder (strict ORDER BY guard); registry templates vs the grammar's analytic operators (same-name rule, sibling shape agreement); evaluation of the window-bound formatter over all bound shapes; abstract interpretation (E6) of visit_Windowing over every frame shape (offsets 0-3, unbounded, current; data points / range; date ordering) against the offset semantics of the frame; decision table (E6) of the AST constructor's window-limit ordering",
         text="Decides the structural clauses of analytic invocations: partition, order, window and parameters all reach the OVER "
              "clause; `partition except` is honoured wherever the partition is used; ORDER BY is emitted exactly when the script "
              "has an order by and the frame exactly when it has a window; every analytic operator is the SQL window function of the "
@@ -285,7 +285,7 @@ PROPS = {
         note="Analytic without order by (frame without ORDER BY) is reported under C15/C33, since C06 speaks about total orderings."),
     "C07": dict(
         claimed=True, design="§3 C07",
-        technique="typed field-read inventory for the validation node classes; enum-member vs comparison-constant coverage of the mode dispatch; alias analysis from the ruleset/operator registries to mutation sites (interprocedural over transpiler methods); reader/writer agreement on the hierarchy pivot's presence columns; exact three-valued evaluation of the parsed SQL that filters invalid rows and gates errorcode/errorlevel; finite decision table (E6) of the errorcode/errorlevel literal helper (NULL iff absent)",
+        technique="typed field-read inventory for the validation node classes; enum-member vs comparison-constant coverage of the mode dispatch; alias analysis from the ruleset/operator registries to mutation sites (interprocedural over transpiler methods); reader/writer agreement on the hierarchy pivot's presence columns; exact three-valued evaluation of the parsed SQL that filters invalid rows and gates errorcode/errorlevel; finite decision table (E6) of the errorcode/errorlevel literal helper (NULL iff absent); taint from the measure to the presence expression of the hierarchy pivot; structure model of check() (validator vs structure builder vs SELECT list)",
         text="Decides the structural clauses of validation: error codes/levels, imbalance, output and validation modes are all consumed; "
              "every validation mode is dispatched and zero substitution is tied to absence of a code item in exactly the *_zero modes; "
              "no statement can edit the ruleset definitions that later statements use; for check, check_datapoint and "
@@ -295,7 +295,7 @@ PROPS = {
         note="SQL three-valued logic is an oracle in the checker. check_datapoint `components` is validated semantically only (reasoned exemption)."),
     "C28": dict(
         claimed=True, design="§3 C28",
-        technique="CFG must-pass-through on the interpreter's statement loop (1-3-3-6 before store); def-use from ViralPropagationDef fields to the rule constructor and rule-field read inventory; table extraction (_AGG_BINARY/_AGG_GROUP vs grammar tokens); exact rational evaluation of the parsed two-operand SQL forms for associativity/commutativity vs the N-ary fold; structural order of CASE arms; order lint + paired-field rule for the group/window forms; call-site inventory of vp_* helpers per operator handler",
+        technique="CFG must-pass-through on the interpreter's statement loop (1-3-3-6 before store); def-use from ViralPropagationDef fields to the rule constructor and rule-field read inventory; table extraction (_AGG_BINARY/_AGG_GROUP vs grammar tokens); exact rational evaluation of the parsed two-operand SQL forms for associativity/commutativity vs the N-ary fold; structural order of CASE arms; order lint + paired-field rule for the group/window forms; call-site inventory of vp_* helpers per operator handler; UNION ALL rule on row sets gathered for a propagation reduction",
         text="Decides the structural clauses of viral propagation: a result with a rule-less viral attribute cannot be stored; every "
              "part of a rule definition reaches the SQL generation; the four aggregate functions are in both tables and a two-operand "
              "form folded over N operands is associative and commutative or has its own N-ary form; two-value clauses are tested "
